@@ -1,6 +1,8 @@
 (* C03 property theorems.  Statements + exact + Print Assumptions only. *)
 From ZV.Common Require Import Base Run.
 From ZV.C03 Require Import Model ProofsMem ProofsMixed ProofsZip ProofsSimple.
+From ZV.C03 Require Import ProofsSimpleGet ModelStore ProofsStore ModelZero ProofsZero ModelPlain ProofsPlainFs ProofsPlain.
+From ZV.C03 Require Import ModelWrap ProofsWrap ModelCached ProofsCached ModelDictZip ProofsDictZip ModelCases ProofsStack.
 Open Scope N_scope.
 
 (* MemoryBlobStore: for EVERY history of put/put_batch/remove/get+contains+size/len issuing fewer than 2^32-1 ids,
@@ -85,3 +87,402 @@ Theorem simplezip_fragment_lossless :
 Proof. exact fragment_lossless_proof. Qed.
 Check simplezip_fragment_lossless : forall c rec, 1 <= q_min c -> q_min c <= q_max c -> concat (fragment c rec) = rec.
 Print Assumptions simplezip_fragment_lossless.
+
+(* ================================================================== *)
+(* extension: more stores inside the model                              *)
+(* ================================================================== *)
+
+(* SimpleZipBlobStore, string-pool half (build_strpool + get_record_append_imp): for every valid configuration and every
+   input list, record i = input i — the deduplicated pool, the offset/length tables and the record boundaries read back
+   every fragment of every record; none of the bounds checks of get fires *)
+Theorem simplezip_get_record :
+  forall c recs i, 1 <= q_min c -> q_min c <= q_max c -> (i < length recs)%nat ->
+    sz_get (sz_build c recs) (N.of_nat i) = Some (nth i recs []).
+Proof. exact simplezip_get_record_proof. Qed.
+Check simplezip_get_record :
+  forall c recs i, 1 <= q_min c -> q_min c <= q_max c -> (i < length recs)%nat ->
+    sz_get (sz_build c recs) (N.of_nat i) = Some (nth i recs []).
+Print Assumptions simplezip_get_record.
+
+(* ids past the end are absent *)
+Theorem simplezip_absent :
+  forall c recs id, nlen recs <= id -> sz_get (sz_build c recs) id = None.
+Proof. exact simplezip_absent_proof. Qed.
+Check simplezip_absent :
+  forall c recs id, nlen recs <= id -> sz_get (sz_build c recs) id = None.
+Print Assumptions simplezip_absent.
+
+(* the generic interface: ANY store whose nine operations satisfy the clause-by-clause simulation `refines` answers EVERY
+   history (put / put_batch / remove / remove_batch / get+contains+size / get_batch / len) exactly like the property's
+   state machine, as long as the id counter stays below the store's bound B and the records are in the store's domain P *)
+Theorem store_refines_every_history :
+  forall (St : Type) (B : N) (P : bytes -> Prop) (O : store_ops St) (Rel : St -> spec -> Prop),
+    refines B P O Rel ->
+    forall ops st s, Rel st s -> Forall P (xrecords ops) -> s_next s + xputs ops < B ->
+      st_run O st ops = spec_xrun s ops.
+Proof. exact (@refines_run). Qed.
+Check store_refines_every_history :
+  forall (St : Type) (B : N) (P : bytes -> Prop) (O : store_ops St) (Rel : St -> spec -> Prop),
+    refines B P O Rel ->
+    forall ops st s, Rel st s -> Forall P (xrecords ops) -> s_next s + xputs ops < B ->
+      st_run O st ops = spec_xrun s ops.
+Print Assumptions store_refines_every_history.
+
+(* MemoryBlobStore behind the interface is such a store (incl. its put_batch / get_batch / remove_batch loops) *)
+Theorem mem_store_refines_spec :
+  refines W32 (fun _ => True) mem_ops R.
+Proof. exact mem_store_refines. Qed.
+Check mem_store_refines_spec :
+  refines W32 (fun _ => True) mem_ops R.
+Print Assumptions mem_store_refines_spec.
+
+(* ZeroLengthBlobStore: every history whose records are all empty and which never asks for the removal of a live record
+   (the store documents that it does not support removal) is answered exactly like the property's machine numbering from 0 *)
+Theorem zero_history_refines_spec :
+  forall ops, zero_ok 0 ops -> xputs ops <= W32 -> st_run zero_ops 0 ops = spec_xrun spec_zero ops.
+Proof. exact zero_history_refines_proof. Qed.
+Check zero_history_refines_spec :
+  forall ops, zero_ok 0 ops -> xputs ops <= W32 -> st_run zero_ops 0 ops = spec_xrun spec_zero ops.
+Print Assumptions zero_history_refines_spec.
+
+(* PlainBlobStore (directory = finite map file name -> content; put = write `.{id}.tmp`, rename onto `{id}`; len = number of
+   names that parse as u32): the simulation holds with the relation `one canonical file per live record` *)
+Theorem plain_store_refines_spec :
+  refines W32 (fun _ => True) plain_ops plain_rel.
+Proof. exact plain_store_refines_proof. Qed.
+Check plain_store_refines_spec :
+  refines W32 (fun _ => True) plain_ops plain_rel.
+Print Assumptions plain_store_refines_spec.
+
+(* every history INCLUDING close + reopen steps (reopen = rescan: next id = largest parsed name + 1): the observations are a
+   trace of the property's machine in which a reopen keeps every live record, its id and the count, and may only reset
+   the id counter to a value above every live id *)
+Theorem plain_history_refines_spec :
+  forall ops, 1 + pputs ops < W32 -> spec_ptrace spec_empty ops (plain_prun plain_create ops).
+Proof. exact plain_history_refines_proof. Qed.
+Check plain_history_refines_spec :
+  forall ops, 1 + pputs ops < W32 -> spec_ptrace spec_empty ops (plain_prun plain_create ops).
+Print Assumptions plain_history_refines_spec.
+
+(* without reopen steps: the same shape as mem_history_refines_spec *)
+Theorem plain_history_no_reopen_refines_spec :
+  forall ops, 1 + xputs ops < W32 -> st_run plain_ops plain_create ops = spec_xrun spec_empty ops.
+Proof. exact plain_history_no_reopen_proof. Qed.
+Check plain_history_no_reopen_refines_spec :
+  forall ops, 1 + xputs ops < W32 -> st_run plain_ops plain_create ops = spec_xrun spec_empty ops.
+Print Assumptions plain_history_no_reopen_refines_spec.
+
+(* after every history (reopens included) the id the next put returns is the counter, no file carries that name, and every
+   live id is below it: an id is handed out again only when its record is no longer live *)
+Theorem plain_ids_not_reused_for_live :
+  forall ops d, 1 + pputs ops < W32 ->
+    let st := plain_pexec plain_create ops in
+    snd (plain_put st d) = Some (p_next st) /\
+    snd (plain_get st (p_next st)) = None /\
+    (forall id r, snd (plain_get st id) = Some r -> id < p_next st).
+Proof. exact plain_ids_not_reused_proof. Qed.
+Check plain_ids_not_reused_for_live :
+  forall ops d, 1 + pputs ops < W32 ->
+    let st := plain_pexec plain_create ops in
+    snd (plain_put st d) = Some (p_next st) /\
+    snd (plain_get st (p_next st)) = None /\
+    (forall id r, snd (plain_get st id) = Some r -> id < p_next st).
+Print Assumptions plain_ids_not_reused_for_live.
+
+(* PlainBlobStore::new on an existing directory of record files (names = decimal ids below 2^32-1): the opened store is
+   related to the machine whose live records are exactly the files *)
+Theorem plain_open_existing :
+  forall m, NoDup (dnames m) -> canonical (W32 - 1) m ->
+    exists st s, plain_open m = Some st /\ plain_rel st s /\
+                 (forall id, s_live s id = dlookup (render id) m) /\ s_count s = nlen m.
+Proof. exact plain_open_existing_proof. Qed.
+Check plain_open_existing :
+  forall m, NoDup (dnames m) -> canonical (W32 - 1) m ->
+    exists st s, plain_open m = Some st /\ plain_rel st s /\
+                 (forall id, s_live s id = dlookup (render id) m) /\ s_count s = nlen m.
+Print Assumptions plain_open_existing.
+
+(* the wrapper stores (ZstdBlobStore, HuffmanBlobStore framing, Rans/DictionaryBlobStore pass-through — `wrap_ops` with the
+   three configurations): over ANY inner store that satisfies the simulation and for ANY codec, the wrapped store
+   satisfies the simulation on the records the codec is lossless on (decode (encode x) = x, size answered correctly) *)
+Theorem wrapper_refines_spec :
+  forall (St : Type) (I : store_ops St) (B : N) (Pin : bytes -> Prop) (Rel : St -> spec -> Prop)
+         (cfg : wrap_cfg) (enc dec : bytes -> option bytes) (szof : bytes -> option N),
+    refines B Pin I Rel ->
+    refines B (wrap_P cfg enc dec szof Pin) (wrap_ops I cfg enc dec szof) (wrap_rel cfg enc dec szof Rel).
+Proof. exact wrapper_refines_proof. Qed.
+Check wrapper_refines_spec :
+  forall (St : Type) (I : store_ops St) (B : N) (Pin : bytes -> Prop) (Rel : St -> spec -> Prop)
+         (cfg : wrap_cfg) (enc dec : bytes -> option bytes) (szof : bytes -> option N),
+    refines B Pin I Rel ->
+    refines B (wrap_P cfg enc dec szof Pin) (wrap_ops I cfg enc dec szof) (wrap_rel cfg enc dec szof Rel).
+Print Assumptions wrapper_refines_spec.
+
+(* hence every history of a wrapped store is answered like the property's machine *)
+Theorem wrapper_history_refines_spec :
+  forall (St : Type) (I : store_ops St) (B : N) (Pin : bytes -> Prop) (Rel : St -> spec -> Prop)
+         (cfg : wrap_cfg) (enc dec : bytes -> option bytes) (szof : bytes -> option N),
+    refines B Pin I Rel ->
+    forall ops st s, wrap_rel cfg enc dec szof Rel st s ->
+      Forall (wrap_P cfg enc dec szof Pin) (xrecords ops) -> s_next s + xputs ops < B ->
+      st_run (wrap_ops I cfg enc dec szof) st ops = spec_xrun s ops.
+Proof. exact wrapper_history_proof. Qed.
+Check wrapper_history_refines_spec :
+  forall (St : Type) (I : store_ops St) (B : N) (Pin : bytes -> Prop) (Rel : St -> spec -> Prop)
+         (cfg : wrap_cfg) (enc dec : bytes -> option bytes) (szof : bytes -> option N),
+    refines B Pin I Rel ->
+    forall ops st s, wrap_rel cfg enc dec szof Rel st s ->
+      Forall (wrap_P cfg enc dec szof Pin) (xrecords ops) -> s_next s + xputs ops < B ->
+      st_run (wrap_ops I cfg enc dec szof) st ops = spec_xrun s ops.
+Print Assumptions wrapper_history_refines_spec.
+
+(* HuffmanBlobStore's frame (tag byte, original length as u64 LE for coded payloads, payload): for every coder that decodes
+   what it encodes, trained or not, every record shorter than 2^64 bytes is framed losslessly and `size` reads its length *)
+Theorem huffman_frame_lossless :
+  forall (trained : bool) (hcode : bytes -> option bytes) (hdecode : bytes -> N -> option bytes),
+    (forall d c, hcode d = Some c -> hdecode c (nlen d) = Some d) ->
+    forall d, nlen d < W64 ->
+      exists c, codec_ok huff_cfg (huff_enc trained hcode) (huff_dec trained hdecode) huff_szof d c.
+Proof. exact huffman_frame_codec_ok. Qed.
+Check huffman_frame_lossless :
+  forall (trained : bool) (hcode : bytes -> option bytes) (hdecode : bytes -> N -> option bytes),
+    (forall d c, hcode d = Some c -> hdecode c (nlen d) = Some d) ->
+    forall d, nlen d < W64 ->
+      exists c, codec_ok huff_cfg (huff_enc trained hcode) (huff_dec trained hdecode) huff_szof d c.
+Print Assumptions huffman_frame_lossless.
+
+(* ZstdBlobStore<MemoryBlobStore>, zstd a parameter *)
+Theorem zstd_over_memory_history_refines_spec :
+  forall (comp decomp : bytes -> option bytes),
+    (forall d, exists c, comp d = Some c /\ decomp c = Some d) ->
+    forall ops, 1 + xputs ops < W32 ->
+      st_run (zstd_ops mem_ops comp decomp) mem_empty ops = spec_xrun spec_empty ops.
+Proof. exact zstd_over_memory_history_proof. Qed.
+Check zstd_over_memory_history_refines_spec :
+  forall (comp decomp : bytes -> option bytes),
+    (forall d, exists c, comp d = Some c /\ decomp c = Some d) ->
+    forall ops, 1 + xputs ops < W32 ->
+      st_run (zstd_ops mem_ops comp decomp) mem_empty ops = spec_xrun spec_empty ops.
+Print Assumptions zstd_over_memory_history_refines_spec.
+
+(* HuffmanBlobStore<MemoryBlobStore>, the coder a parameter *)
+Theorem huffman_over_memory_history_refines_spec :
+  forall (trained : bool) (hcode : bytes -> option bytes) (hdecode : bytes -> N -> option bytes),
+    (forall d c, hcode d = Some c -> hdecode c (nlen d) = Some d) ->
+    forall ops, Forall (fun d => nlen d < W64) (xrecords ops) -> 1 + xputs ops < W32 ->
+      st_run (huff_ops trained hcode hdecode mem_ops) mem_empty ops = spec_xrun spec_empty ops.
+Proof. exact huffman_over_memory_history_proof. Qed.
+Check huffman_over_memory_history_refines_spec :
+  forall (trained : bool) (hcode : bytes -> option bytes) (hdecode : bytes -> N -> option bytes),
+    (forall d c, hcode d = Some c -> hdecode c (nlen d) = Some d) ->
+    forall ops, Forall (fun d => nlen d < W64) (xrecords ops) -> 1 + xputs ops < W32 ->
+      st_run (huff_ops trained hcode hdecode mem_ops) mem_empty ops = spec_xrun spec_empty ops.
+Print Assumptions huffman_over_memory_history_refines_spec.
+
+(* RansBlobStore / DictionaryBlobStore<MemoryBlobStore> (they pass every call through) *)
+Theorem pass_over_memory_history_refines_spec :
+  forall ops, 1 + xputs ops < W32 -> st_run (pass_ops mem_ops) mem_empty ops = spec_xrun spec_empty ops.
+Proof. exact pass_over_memory_history_proof. Qed.
+Check pass_over_memory_history_refines_spec :
+  forall ops, 1 + xputs ops < W32 -> st_run (pass_ops mem_ops) mem_empty ops = spec_xrun spec_empty ops.
+Print Assumptions pass_over_memory_history_refines_spec.
+
+(* wrappers compose: HuffmanBlobStore<ZstdBlobStore<MemoryBlobStore>> *)
+Theorem huffman_over_zstd_over_memory_history_refines_spec :
+  forall (comp decomp : bytes -> option bytes) (trained : bool) (hcode : bytes -> option bytes) (hdecode : bytes -> N -> option bytes),
+    (forall d, exists c, comp d = Some c /\ decomp c = Some d) ->
+    (forall d c, hcode d = Some c -> hdecode c (nlen d) = Some d) ->
+    forall ops, Forall (fun d => nlen d < W64) (xrecords ops) -> 1 + xputs ops < W32 ->
+      st_run (huff_ops trained hcode hdecode (zstd_ops mem_ops comp decomp)) mem_empty ops = spec_xrun spec_empty ops.
+Proof. exact huffman_over_zstd_over_memory_history_proof. Qed.
+Check huffman_over_zstd_over_memory_history_refines_spec :
+  forall (comp decomp : bytes -> option bytes) (trained : bool) (hcode : bytes -> option bytes) (hdecode : bytes -> N -> option bytes),
+    (forall d, exists c, comp d = Some c /\ decomp c = Some d) ->
+    (forall d c, hcode d = Some c -> hdecode c (nlen d) = Some d) ->
+    forall ops, Forall (fun d => nlen d < W64) (xrecords ops) -> 1 + xputs ops < W32 ->
+      st_run (huff_ops trained hcode hdecode (zstd_ops mem_ops comp decomp)) mem_empty ops = spec_xrun spec_empty ops.
+Print Assumptions huffman_over_zstd_over_memory_history_refines_spec.
+
+(* CachedBlobStore (blob_metadata id -> (offset, size), next_offset, three write strategies, cache on/off) over ANY inner
+   store that satisfies the simulation and ANY page cache that never invents data (whatever it answers for a range was
+   handed to it for exactly that range): whatever the cache holds, every operation is answered like the inner store *)
+Theorem cached_refines_inner :
+  forall (St PC : Type) (I : store_ops St)
+         (pc_read : PC -> N -> N -> PC * option bytes) (pc_dirty : PC -> N -> bytes -> PC)
+         (pc_inval : PC -> N -> N -> PC) (pc_fill : PC -> N -> bytes -> PC)
+         (B : N) (P : bytes -> Prop) (Rel : St -> spec -> Prop),
+    pc_lawful pc_read pc_dirty pc_inval pc_fill ->
+    refines B P I Rel ->
+    refines B P (cached_ops I pc_read pc_dirty pc_inval pc_fill) (cached_rel pc_read Rel).
+Proof. exact cached_refines_proof. Qed.
+Check cached_refines_inner :
+  forall (St PC : Type) (I : store_ops St)
+         (pc_read : PC -> N -> N -> PC * option bytes) (pc_dirty : PC -> N -> bytes -> PC)
+         (pc_inval : PC -> N -> N -> PC) (pc_fill : PC -> N -> bytes -> PC)
+         (B : N) (P : bytes -> Prop) (Rel : St -> spec -> Prop),
+    pc_lawful pc_read pc_dirty pc_inval pc_fill ->
+    refines B P I Rel ->
+    refines B P (cached_ops I pc_read pc_dirty pc_inval pc_fill) (cached_rel pc_read Rel).
+Print Assumptions cached_refines_inner.
+
+(* a removed id is never served from the cache *)
+Theorem cached_removed_not_served :
+  forall (St PC : Type) (I : store_ops St)
+         (pc_read : PC -> N -> N -> PC * option bytes) (pc_dirty : PC -> N -> bytes -> PC)
+         (pc_inval : PC -> N -> N -> PC) (pc_fill : PC -> N -> bytes -> PC)
+         (B : N) (P : bytes -> Prop) (Rel : St -> spec -> Prop),
+    pc_lawful pc_read pc_dirty pc_inval pc_fill -> refines B P I Rel ->
+    forall c s id, cached_rel pc_read Rel c s ->
+      snd (cached_remove I pc_inval c id) = true ->
+      snd (cached_get I pc_read pc_fill (fst (cached_remove I pc_inval c id)) id) = None.
+Proof. exact cached_removed_not_served_proof. Qed.
+Check cached_removed_not_served :
+  forall (St PC : Type) (I : store_ops St)
+         (pc_read : PC -> N -> N -> PC * option bytes) (pc_dirty : PC -> N -> bytes -> PC)
+         (pc_inval : PC -> N -> N -> PC) (pc_fill : PC -> N -> bytes -> PC)
+         (B : N) (P : bytes -> Prop) (Rel : St -> spec -> Prop),
+    pc_lawful pc_read pc_dirty pc_inval pc_fill -> refines B P I Rel ->
+    forall c s id, cached_rel pc_read Rel c s ->
+      snd (cached_remove I pc_inval c id) = true ->
+      snd (cached_get I pc_read pc_fill (fst (cached_remove I pc_inval c id)) id) = None.
+Print Assumptions cached_removed_not_served.
+
+(* CachedBlobStore<MemoryBlobStore>: every history, every lawful cache, strategy and on/off flag *)
+Theorem cached_over_memory_history_refines_spec :
+  forall (PC : Type) (pc_read : PC -> N -> N -> PC * option bytes) (pc_dirty : PC -> N -> bytes -> PC)
+         (pc_inval : PC -> N -> N -> PC) (pc_fill : PC -> N -> bytes -> PC) (pc0 : PC) (strategy : N) (enabled : bool),
+    pc_lawful pc_read pc_dirty pc_inval pc_fill ->
+    (forall off n, snd (pc_read pc0 off n) = None) ->
+    forall ops, 1 + xputs ops < W32 ->
+      st_run (cached_ops mem_ops pc_read pc_dirty pc_inval pc_fill) (cached_new mem_empty pc0 strategy enabled) ops
+      = spec_xrun spec_empty ops.
+Proof. exact cached_over_memory_history_proof. Qed.
+Check cached_over_memory_history_refines_spec :
+  forall (PC : Type) (pc_read : PC -> N -> N -> PC * option bytes) (pc_dirty : PC -> N -> bytes -> PC)
+         (pc_inval : PC -> N -> N -> PC) (pc_fill : PC -> N -> bytes -> PC) (pc0 : PC) (strategy : N) (enabled : bool),
+    pc_lawful pc_read pc_dirty pc_inval pc_fill ->
+    (forall off n, snd (pc_read pc0 off n) = None) ->
+    forall ops, 1 + xputs ops < W32 ->
+      st_run (cached_ops mem_ops pc_read pc_dirty pc_inval pc_fill) (cached_new mem_empty pc0 strategy enabled) ops
+      = spec_xrun spec_empty ops.
+Print Assumptions cached_over_memory_history_refines_spec.
+
+(* the law is inhabited: by the cache of the code as it stands (a virtual file has no pages with data) and by a cache that
+   really keeps what it is handed *)
+Theorem cached_caches_lawful :
+  pc_lawful nopc_read nopc_dirty nopc_inval nopc_fill /\ pc_lawful rpc_read rpc_dirty rpc_inval rpc_dirty.
+Proof. exact (conj nopc_lawful_proof rpc_lawful_proof). Qed.
+Check cached_caches_lawful :
+  pc_lawful nopc_read nopc_dirty nopc_inval nopc_fill /\ pc_lawful rpc_read rpc_dirty rpc_inval rpc_dirty.
+Print Assumptions cached_caches_lawful.
+
+(* DictZipBlobStore bookkeeping (u64 id counter truncated to RecordId, storage map, decompression cache filled by get and
+   purged by remove / remove_batch, len / contains / size from the storage map) over ANY PA-Zip compressor and entropy
+   stage with the round-trip law, ANY ratio test and ANY LRU map that answers only with what was put and not removed *)
+Theorem dictzip_refines_spec :
+  forall (C : Type) (cfg : dzcfg) (pz_comp pz_decomp : bytes -> option bytes)
+         (ent_enc : bytes -> option bytes) (ent_dec : bytes -> N -> option bytes) (ratio_ok : bytes -> bytes -> bool)
+         (lru_get : C -> N -> option bytes) (lru_put : C -> N -> bytes -> C) (lru_remove : C -> N -> C),
+    dz_codec_lawful pz_comp pz_decomp ent_enc ent_dec ->
+    lru_lawful lru_get lru_put lru_remove ->
+    refines W32 (dz_P cfg pz_comp ent_enc ratio_ok)
+            (dz_ops cfg pz_comp pz_decomp ent_enc ent_dec ratio_ok lru_get lru_put lru_remove)
+            (dz_rel pz_decomp ent_dec lru_get).
+Proof. exact dictzip_refines_proof. Qed.
+Check dictzip_refines_spec :
+  forall (C : Type) (cfg : dzcfg) (pz_comp pz_decomp : bytes -> option bytes)
+         (ent_enc : bytes -> option bytes) (ent_dec : bytes -> N -> option bytes) (ratio_ok : bytes -> bytes -> bool)
+         (lru_get : C -> N -> option bytes) (lru_put : C -> N -> bytes -> C) (lru_remove : C -> N -> C),
+    dz_codec_lawful pz_comp pz_decomp ent_enc ent_dec ->
+    lru_lawful lru_get lru_put lru_remove ->
+    refines W32 (dz_P cfg pz_comp ent_enc ratio_ok)
+            (dz_ops cfg pz_comp pz_decomp ent_enc ent_dec ratio_ok lru_get lru_put lru_remove)
+            (dz_rel pz_decomp ent_dec lru_get).
+Print Assumptions dictzip_refines_spec.
+
+(* every history of non-empty records from the empty store *)
+Theorem dictzip_history_refines_spec :
+  forall (C : Type) (cfg : dzcfg) (pz_comp pz_decomp : bytes -> option bytes)
+         (ent_enc : bytes -> option bytes) (ent_dec : bytes -> N -> option bytes) (ratio_ok : bytes -> bytes -> bool)
+         (lru_get : C -> N -> option bytes) (lru_put : C -> N -> bytes -> C) (lru_remove : C -> N -> C) (c0 : C),
+    dz_codec_lawful pz_comp pz_decomp ent_enc ent_dec ->
+    lru_lawful lru_get lru_put lru_remove ->
+    (forall id, lru_get c0 id = None) ->
+    forall ops, Forall (dz_P cfg pz_comp ent_enc ratio_ok) (xrecords ops) -> 1 + xputs ops < W32 ->
+      st_run (dz_ops cfg pz_comp pz_decomp ent_enc ent_dec ratio_ok lru_get lru_put lru_remove) (dz_new c0) ops
+      = spec_xrun spec_empty ops.
+Proof. exact dictzip_history_proof. Qed.
+Check dictzip_history_refines_spec :
+  forall (C : Type) (cfg : dzcfg) (pz_comp pz_decomp : bytes -> option bytes)
+         (ent_enc : bytes -> option bytes) (ent_dec : bytes -> N -> option bytes) (ratio_ok : bytes -> bytes -> bool)
+         (lru_get : C -> N -> option bytes) (lru_put : C -> N -> bytes -> C) (lru_remove : C -> N -> C) (c0 : C),
+    dz_codec_lawful pz_comp pz_decomp ent_enc ent_dec ->
+    lru_lawful lru_get lru_put lru_remove ->
+    (forall id, lru_get c0 id = None) ->
+    forall ops, Forall (dz_P cfg pz_comp ent_enc ratio_ok) (xrecords ops) -> 1 + xputs ops < W32 ->
+      st_run (dz_ops cfg pz_comp pz_decomp ent_enc ent_dec ratio_ok lru_get lru_put lru_remove) (dz_new c0) ops
+      = spec_xrun spec_empty ops.
+Print Assumptions dictzip_history_refines_spec.
+
+(* after remove_batch (the loop over remove) none of the listed ids is answered — not from storage, not from the cache *)
+Theorem dictzip_removed_not_served :
+  forall (C : Type) (cfg : dzcfg) (pz_comp pz_decomp : bytes -> option bytes)
+         (ent_enc : bytes -> option bytes) (ent_dec : bytes -> N -> option bytes) (ratio_ok : bytes -> bytes -> bool)
+         (lru_get : C -> N -> option bytes) (lru_put : C -> N -> bytes -> C) (lru_remove : C -> N -> C),
+    dz_codec_lawful pz_comp pz_decomp ent_enc ent_dec ->
+    lru_lawful lru_get lru_put lru_remove ->
+    forall st s ids id, dz_rel pz_decomp ent_dec lru_get st s -> In id ids ->
+      let st' := fst (rm_loop (dz_remove lru_remove) st ids) in
+      snd (dz_get pz_decomp ent_dec lru_get lru_put st' id) = None /\ lru_get (dz_cache st') id = None.
+Proof. exact dictzip_removed_not_served_proof. Qed.
+Check dictzip_removed_not_served :
+  forall (C : Type) (cfg : dzcfg) (pz_comp pz_decomp : bytes -> option bytes)
+         (ent_enc : bytes -> option bytes) (ent_dec : bytes -> N -> option bytes) (ratio_ok : bytes -> bytes -> bool)
+         (lru_get : C -> N -> option bytes) (lru_put : C -> N -> bytes -> C) (lru_remove : C -> N -> C),
+    dz_codec_lawful pz_comp pz_decomp ent_enc ent_dec ->
+    lru_lawful lru_get lru_put lru_remove ->
+    forall st s ids id, dz_rel pz_decomp ent_dec lru_get st s -> In id ids ->
+      let st' := fst (rm_loop (dz_remove lru_remove) st ids) in
+      snd (dz_get pz_decomp ent_dec lru_get lru_put st' id) = None /\ lru_get (dz_cache st') id = None.
+Print Assumptions dictzip_removed_not_served.
+
+(* the laws are inhabited: an LRU map that never evicts, and a toy compressor that really shortens records *)
+Theorem dictzip_standins_lawful :
+  lru_lawful alru_get alru_put alru_remove /\
+  dz_codec_lawful toy_comp toy_decomp (fun c => Some (rev c)) (fun e _ => Some (rev e)).
+Proof. exact (conj alru_lawful_proof toy_codec_lawful_proof). Qed.
+Check dictzip_standins_lawful :
+  lru_lawful alru_get alru_put alru_remove /\
+  dz_codec_lawful toy_comp toy_decomp (fun c => Some (rev c)) (fun e _ => Some (rev e)).
+Print Assumptions dictzip_standins_lawful.
+
+(* recorded finding plain_id_wraparound: the id counter of PlainBlobStore wraps at 2^32 exactly like MemoryBlobStore's; a store
+   opened on a directory that holds a file named 4294967294 overwrites live record 1 on its third put, and a file named
+   4294967295 makes new() overflow (hence the bound `1 + pputs ops < W32` in the positive theorems) *)
+Theorem plain_id_wraparound_refuted :
+  (exists m st0, NoDup (dnames m) /\ canonical W32 m /\ plain_open m = Some st0 /\
+    let '(st1, _) := plain_put st0 [7] in let '(st2, _) := plain_put st1 [8] in let '(st3, id3) := plain_put st2 [9] in
+    id3 = Some 1 /\ snd (plain_get st0 1) = Some [1] /\ snd (plain_get st3 1) = Some [9]) /\
+  plain_open [(render 4294967295, [])] = None.
+Proof. exact (conj plain_wrap_overwrites plain_open_overflow). Qed.
+Print Assumptions plain_id_wraparound_refuted.
+
+(* every stack of stores the harness can describe (`skind`: Memory / Plain / DictZip at the bottom, any nesting of Zstd, Huffman
+   framing, Rans/Dictionary pass-through and CachedBlobStore above it, codecs given as tables): the composed model `kops k`
+   satisfies the simulation, by induction over the nesting *)
+Theorem stack_refines_spec :
+  forall k, no_zero k = true -> refines W32 (kP k) (kops k) (krel k).
+Proof. exact stack_refines_proof. Qed.
+Check stack_refines_spec : forall k, no_zero k = true -> refines W32 (kP k) (kops k) (krel k).
+Print Assumptions stack_refines_spec.
+
+(* hence every history on every such stack, on records every codec of the stack is lossless on, is answered like the
+   property's machine — the statement the evaluated XHist cases are instances of *)
+Theorem stack_history_refines_spec :
+  forall k ops, no_zero k = true -> Forall (kP k) (xrecords ops) -> 1 + xputs ops < W32 ->
+    st_run (kops k) (kinit k) ops = spec_xrun spec_empty ops.
+Proof. exact stack_history_refines_proof. Qed.
+Check stack_history_refines_spec :
+  forall k ops, no_zero k = true -> Forall (kP k) (xrecords ops) -> 1 + xputs ops < W32 ->
+    st_run (kops k) (kinit k) ops = spec_xrun spec_empty ops.
+Print Assumptions stack_history_refines_spec.
